@@ -1374,6 +1374,9 @@ def min_or_max_and_position(arr, want_max: bool = True):
     best = arr[i]
     best_pos = i
     for j, v in enumerate(arr[i + 1 :], i):
+        if is_null(v):
+            # the integer null marker of timestamps is an ordinary (smallest) integer
+            continue
         if want_max and v >= best or (not want_max and v <= best):
             best = v
             best_pos = j
